@@ -7,7 +7,8 @@ Executable model of `pkg/stringSplitter/splitter.go` and of the aggregators in
 Go maps are association lists in insertion order (`aget`/`aset`/`adel`); wherever the Go code
 *ranges* over a map the model takes the iteration order as an explicit argument, and the
 theorems quantify over it.  `int64` arithmetic is `wrap64` after every `+`/`-`.
-`AccumulatingGroup` (accumulator.go) is not modelled here (needs the expression evaluator).
+`AccumulatingGroup` (accumulator.go) is modelled in `Model/C07Acc.lean` (it needs the expression evaluator),
+the counted / sorted accessors in `Model/C07Sorted.lean`.
 -/
 namespace Rare.C07
 
